@@ -61,6 +61,30 @@ type Scenario struct {
 	JSONErr map[string]JSONEndEntry `json:"jsonErr"` // hex body -> decoded connect unary error
 	// StatusBin: base64 text of Grpc-Status-Details-Bin -> decoded status
 	StatusBin map[string]JSONEndEntry `json:"statusBin"`
+	// Expect is the ground truth of a scenario that is valid by construction on both sides
+	// (no injected fault): what the client sent and what the backend answered, as values.
+	Expect *Expectation `json:"expect,omitempty"`
+
+	gen genInfo
+}
+
+// Expectation is what a faithful transcoder must deliver for a clean scenario.
+type Expectation struct {
+	ReqValues         []string   `json:"reqValues"`  // hex message values sent by the client
+	RespValues        []string   `json:"respValues"` // hex message values sent by the backend
+	ErrCode           uint32     `json:"errCode"`    // 0 = success
+	ErrMsg            string     `json:"errMsg"`     // hex
+	Details           int        `json:"details"`
+	Trailers          [][]string `json:"trailers"`          // [hex key, hex value] application trailers set by the backend
+	RespHeaders       [][]string `json:"respHeaders"`       // [hex key, hex value] application headers set by the backend
+	TrailersInHeaders bool       `json:"trailersInHeaders"` // trailers-only style: metadata travels in the header block
+	SizesSafe         bool       `json:"sizesSafe"`         // every representation of every message fits the limit
+	ReadsAll          bool       `json:"readsAll"`          // the backend reads the whole request
+}
+
+type genInfo struct {
+	reqClean, respClean bool
+	reqValues           [][]byte
 }
 
 // JSONEndEntry is the decoded form of an error-bearing payload.
